@@ -24,6 +24,7 @@ def check(ctx):
     ctx.sub(c04.s6_hours)                       # 14:30 open is in hours, 21:00 close is not: orders sized at the close fill at the next open
     ctx.sub(c05.s1_s2_s3_execute)               # at the quote of the fill time, commission from the fee model
     ctx.sub(c04.s2_s3_update)                   # sells first
+    ctx.sub(c04.s5_whole_batch)                 # ... across the whole batch
     from . import c01
     ctx.sub(c01.s2_deltas)                      # final cash: each fill moves cash by -(price x quantity + commission)
     ctx.sub(c14.s1_loop_table)                  # rebalance at scheduled closes, equity sampled at each close after the broker update
